@@ -369,6 +369,7 @@ func (f *FileInfo) ExportOptions(tx *Transaction) option.ExportOptions {
 	ops.EncloseAll = f.EncloseAll
 	ops.JsonEscape = f.JsonEscape
 	ops.PrettyPrint = f.PrettyPrint
+	ops.Color = false
 	return ops
 }
 
